@@ -212,6 +212,8 @@ impl<T, const N: usize> SmallVec<T, N> {
                             (*self.data.arr)[j].write(val);
                         }
                         self.size += 1;
+                    } else {
+                        (*self.data.arr)[i].assume_init_drop();
                     }
                 }
             }
@@ -241,6 +243,8 @@ impl<T, const N: usize> SmallVec<T, N> {
                             (*self.data.arr)[j].write(val);
                         }
                         self.size += 1;
+                    } else {
+                        (*self.data.arr)[i].assume_init_drop();
                     }
                 }
             }
@@ -273,6 +277,8 @@ impl<T, const N: usize> SmallVec<T, N> {
                                 (*self.data.arr)[j].write(val);
                             }
                             self.size += 1;
+                        } else {
+                            (*self.data.arr)[i].assume_init_drop();
                         }
                     }
                 }
